@@ -3,7 +3,7 @@ package rules
 import (
 	"go/ast"
 	"go/constant"
-	"go/token"
+	"go/types"
 	"strings"
 
 	"jsverif/internal/core"
@@ -45,30 +45,48 @@ func c18parity(c *core.Ctx) {
 		c.Unresolved(R, "(*notations/regex.RSchema).doCompile")
 		return
 	}
+	// the loop over the content bytes: in doCompile itself or in a helper of the package it calls
 	var loop *ast.RangeStmt
-	var label string
-	ast.Inspect(d.Decl.Body, func(n ast.Node) bool {
-		if ls, ok := n.(*ast.LabeledStmt); ok {
-			if rs, ok := ls.Stmt.(*ast.RangeStmt); ok && loop == nil {
-				loop, label = rs, ls.Label.Name
+	lpk := d.Pkg
+	findLoop := func(body *ast.BlockStmt) *ast.RangeStmt {
+		var out *ast.RangeStmt
+		ast.Inspect(body, func(n ast.Node) bool {
+			if rs, ok := n.(*ast.RangeStmt); ok && out == nil && rs.Value != nil {
+				if t := core.TypeOf(lpk, rs.Value); t != nil && t.String() == "byte" || t != nil && t.String() == "uint8" {
+					out = rs
+				}
 			}
-		}
-		if rs, ok := n.(*ast.RangeStmt); ok && loop == nil {
-			loop = rs
-		}
-		return true
-	})
-	if loop == nil || loop.Value == nil {
-		c.Bad(R, "doCompile:loop", c.P.Pos(d.Decl.Pos()), "delimiter loop", "undecided: no range loop over the content bytes")
+			return true
+		})
+		return out
+	}
+	loop = findLoop(d.Decl.Body)
+	if loop == nil {
+		ast.Inspect(d.Decl.Body, func(n ast.Node) bool {
+			call, ok := n.(*ast.CallExpr)
+			if !ok || loop != nil {
+				return true
+			}
+			if f, ok := core.Callee(d.Pkg, call).(*types.Func); ok && f.Pkg() != nil && f.Pkg().Path() == d.Pkg.PkgPath {
+				if hd := c.P.FindDecl(core.Rel(f.FullName())); hd != nil && hd.Decl.Body != nil {
+					lpk = hd.Pkg
+					loop = findLoop(hd.Decl.Body)
+				}
+			}
+			return true
+		})
+	}
+	if loop == nil {
+		c.Bad(R, "doCompile:loop", c.P.Pos(d.Decl.Pos()), "delimiter loop", "undecided: no range loop over the content bytes in doCompile or a helper it calls")
 		return
 	}
 	cvar := core.ExprStr(loop.Value)
-	// find the boolean state variable: the only bool variable assigned in the loop
+	// the boolean state variable: the only bool variable assigned in the loop
 	escVar := ""
 	ast.Inspect(loop.Body, func(n ast.Node) bool {
 		if as, ok := n.(*ast.AssignStmt); ok && len(as.Lhs) == 1 {
 			if id, ok := as.Lhs[0].(*ast.Ident); ok {
-				if t := core.TypeOf(d.Pkg, id); t != nil && t.String() == "bool" {
+				if t := core.TypeOf(lpk, id); t != nil && t.String() == "bool" {
 					escVar = id.Name
 				}
 			}
@@ -79,144 +97,26 @@ func c18parity(c *core.Ctx) {
 		c.Bad(R, "doCompile:state", c.P.Pos(loop.Pos()), "escape-state variable", "undecided: no boolean state variable assigned in the loop")
 		return
 	}
-	type state struct {
-		esc     bool
-		stop    bool
-		unknown string
-	}
-	var evalExpr func(e ast.Expr, ch byte, st *state) (bool, bool)
-	evalExpr = func(e ast.Expr, ch byte, st *state) (bool, bool) {
-		e = ast.Unparen(e)
-		switch x := e.(type) {
-		case *ast.Ident:
-			if x.Name == escVar {
-				return st.esc, true
-			}
-			if x.Name == "true" {
-				return true, true
-			}
-			if x.Name == "false" {
-				return false, true
-			}
-		case *ast.UnaryExpr:
-			if x.Op == token.NOT {
-				v, ok := evalExpr(x.X, ch, st)
-				return !v, ok
-			}
-		case *ast.BinaryExpr:
-			switch x.Op {
-			case token.LAND, token.LOR:
-				a, ok1 := evalExpr(x.X, ch, st)
-				b, ok2 := evalExpr(x.Y, ch, st)
-				if x.Op == token.LAND {
-					return a && b, ok1 && ok2
-				}
-				return a || b, ok1 && ok2
-			case token.EQL, token.NEQ:
-				var cst constant.Value
-				if core.ExprStr(x.X) == cvar {
-					cst = core.ConstOf(d.Pkg, x.Y)
-				} else if core.ExprStr(x.Y) == cvar {
-					cst = core.ConstOf(d.Pkg, x.X)
-				}
-				if cst != nil {
-					n, _ := constantInt64(cst)
-					return (byte(n) == ch) == (x.Op == token.EQL), true
-				}
-			}
-		}
-		return false, false
-	}
-	var exec func(stmts []ast.Stmt, ch byte, st *state) bool // returns true if control left the statement list (break)
-	exec = func(stmts []ast.Stmt, ch byte, st *state) bool {
-		for _, s := range stmts {
-			switch x := s.(type) {
-			case *ast.AssignStmt:
-				if len(x.Lhs) == 1 && core.ExprStr(x.Lhs[0]) == escVar {
-					v, ok := evalExpr(x.Rhs[0], ch, st)
-					if !ok {
-						st.unknown = "assignment " + core.ExprStr0(x)
-					}
-					st.esc = v
-				}
-				// other assignments (s.pattern = ...) do not affect the table
-			case *ast.IfStmt:
-				v, ok := evalExpr(x.Cond, ch, st)
-				if !ok {
-					st.unknown = "condition " + core.ExprStr(x.Cond)
-					return false
-				}
-				if v {
-					if exec(x.Body.List, ch, st) {
-						return true
-					}
-				} else if x.Else != nil {
-					switch el := x.Else.(type) {
-					case *ast.BlockStmt:
-						if exec(el.List, ch, st) {
-							return true
-						}
-					case *ast.IfStmt:
-						if exec([]ast.Stmt{el}, ch, st) {
-							return true
-						}
-					}
-				}
-			case *ast.SwitchStmt:
-				if x.Tag == nil || core.ExprStr(x.Tag) != cvar {
-					st.unknown = "switch not on the byte"
-					return false
-				}
-				var def *ast.CaseClause
-				matched := false
-				for _, cl := range x.Body.List {
-					cc := cl.(*ast.CaseClause)
-					if cc.List == nil {
-						def = cc
-						continue
-					}
-					for _, e := range cc.List {
-						if v := core.ConstOf(d.Pkg, e); v != nil {
-							n, _ := constantInt64(v)
-							if byte(n) == ch && !matched {
-								matched = true
-								if exec(cc.Body, ch, st) && st.stop {
-									return true
-								}
-							}
-						}
-					}
-				}
-				if !matched && def != nil {
-					if exec(def.Body, ch, st) && st.stop {
-						return true
-					}
-				}
-			case *ast.BranchStmt:
-				if x.Tok == token.BREAK {
-					if x.Label != nil && x.Label.Name == label {
-						st.stop = true
-					}
-					return true
-				}
-				if x.Tok == token.CONTINUE {
-					return true
-				}
-			case *ast.ExprStmt, *ast.DeclStmt, *ast.IncDecStmt:
-			default:
-				st.unknown = "statement " + core.ExprStr0(s)
-			}
-		}
-		return false
-	}
 	classes := []struct {
 		name string
 		b    byte
 	}{{"backslash", '\\'}, {"slash", '/'}, {"other", 'a'}}
 	for _, cl := range classes {
 		for _, esc := range []bool{false, true} {
-			st := &state{esc: esc}
-			exec(loop.Body.List, cl.b, st)
+			e := &miniEval{pk: lpk, env: map[string]int64{cvar: int64(cl.b), escVar: b2i(esc)}}
+			if id, ok := loop.Key.(*ast.Ident); ok && id.Name != "_" {
+				e.env[id.Name] = 3
+			}
+			// whatever is computed when the delimiter is found (the pattern, the index) is not part of the table
+			e.hook = func(x ast.Expr) (int64, bool) {
+				if _, ok := x.(*ast.CallExpr); ok {
+					return 0, true
+				}
+				return 0, false
+			}
+			st, _ := e.run(loop.Body.List)
+			stop := st == miniBreak || st == miniLabelBreak || st == miniReturn
+			gotEsc := e.env[escVar] != 0
 			wantEsc, wantStop := false, false
 			switch cl.name {
 			case "backslash":
@@ -225,11 +125,11 @@ func c18parity(c *core.Ctx) {
 				wantStop = !esc
 			}
 			key := core.F("doCompile:%s/escaped=%v", cl.name, esc)
-			what := core.F("byte %s with escaped=%v -> escaped=%v stop=%v", cl.name, esc, st.esc, st.stop)
+			what := core.F("byte %s with escaped=%v -> escaped=%v stop=%v", cl.name, esc, gotEsc, stop)
 			switch {
-			case st.unknown != "":
-				c.Bad(R, key, c.P.Pos(loop.Pos()), what, "undecided: "+st.unknown)
-			case st.stop != wantStop || (!st.stop && st.esc != wantEsc):
+			case e.unknown != "":
+				c.Bad(R, key, c.P.Pos(loop.Pos()), what, "undecided: "+e.unknown)
+			case stop != wantStop || (!stop && gotEsc != wantEsc):
 				c.Bad(R, key, c.P.Pos(loop.Pos()), what, core.F("expected escaped=%v stop=%v: the closing delimiter is found at the wrong place (an escaped `\\/` ends the pattern, or an unescaped `/` after `\\\\` does not)", wantEsc, wantStop))
 			default:
 				c.OK(R, key, c.P.Pos(loop.Pos()), what)
